@@ -21,6 +21,7 @@ RULE = (
     "tree = nested {dirs, files} with names from hit / near-miss pools; each tree x {native, memory} x every "
     "directory as simfile directory and as pack x strict {True, False} x ignore_duplicate {False, True}. Non-trivial "
     "when the tree holds at least two simfile-named entries; distinct by canonical JSON of the tree."
+    ' Round 5: packs mixing cp1252/cp932/UTF-8 files with non-ASCII titles; directories named like audio, image and simfile files.'
 )
 ASSUMPTIONS = ["MemoryFS and the native filesystem list what was created"]
 MONITORS = ["simfile_directory", "pack_listing", "opendir", "openpack", "loader_options_recorder"]
